@@ -22,17 +22,6 @@ def judge(ctx):
     return out
 
 
-def projection(ctx):
-    ok, why = E.model_ok(ctx)
-    if not ok:
-        return ok, why
-    m = ctx.m
-    if m.get("model") == "ok" and ctx.ok and ctx.modified:
-        if sorted(m.get("model:out_shapes") or []) != sorted(m.get("out_shapes") or []):
-            return False, "shape verdicts differ (model %s, implementation %s)" % (m.get("model:out_shapes"), m.get("out_shapes"))
-    return True, ""
-
-
 def nontrivial(ctx):
     return ctx.modified and (ctx.m.get("out_hook_count") or 0) > 0
 
